@@ -24,7 +24,8 @@ META = {
         'over their own keys, columns by cols[].name.  (D3) the caller\'s pre-decoded object is never modified: every '
         'destructive call in jsonparser (pop, del, stores) acts on an object that is fresh (json.loads/copy.deepcopy) '
         'or derived from a fresh one, and parser.parse hands the caller\'s object only to functions with that '
-        'property.  (D4) date-times with a zone name are converted with astimezone (shared with C17.D2); (D1) also: the text captured for Uri/Bin/Ref/str/XStr/unit reaches the constructor verbatim (no substitution, strip or case change between capture and constructor).  Also: the h: time fields are converted with int() on digit text (no float leg; fraction cut/padded as text, never scaled by its unsliced length).  Not decided: microsecond arithmetic results, tz application (C17), JSON text parsing.'),
+        'property.  (D4) date-times with a zone name are converted with astimezone (shared with C17.D2); (D1) also: the text captured for Uri/Bin/Ref/str/XStr/unit reaches the constructor verbatim (no substitution, strip or case change between capture and constructor).  Also: the h: time fields are converted with int() on digit text (no float leg; fraction cut/padded as text, never scaled by its unsliced length).  Not decided: microsecond arithmetic results, tz application (C17), JSON text parsing.'
+        ' Also (D4): the handler around the zone look-up catches what zoneinfo.timezone raises.'),
     'rule_text': 'obligations = spellings x (first-accepting entry, whole-length match), type-order facts, structure '
                  'facts, destructive call sites x freshness',
     'trusted_base': ['json.loads and copy.deepcopy return objects that share nothing mutable with their argument'],
@@ -54,7 +55,7 @@ def run(ctx):
     # date-times with a zone name denote the written instant (clause shared with C17.D2)
     from . import c17
     c17._api(ctx, ctx.model, rule='C05.D4', only=('jsonparser',))
-    c17.zone_applied(ctx, ctx.model, 'C05.D4', 'jsonparser', 'parse_embedded_scalar', 'json')
+    c17.zone_applied(ctx, ctx.model, 'C05.D4', 'jsonparser', 'parse_embedded_scalar', 'json', catches=True)
 
 
 def _spellings(ctx, entries):
